@@ -31,7 +31,8 @@ def main(tier):
         s = [e["lab"]["k"] if e["lab"]["op"] == "accept" else 0 for e in steps if e["lab"]["op"] in ("accept", "interrupt")]
         if s and any(s) and s not in scheds:
             scheds.append(s)
-    scheds += [[1], [5, 0, 5]]
+    # (17..21: a gather write of a 16-byte tag and the first bytes of the next chunk accepted beyond the tag)
+    scheds += [[1], [5, 0, 5], [17], [19, 16, 21, 0, 18]]
     res, scens = scenarios_from_writer("Writer.scen.cfg", "c13-scen")
     chosen = pick(scens, 6 if tier == "quick" else 40, seed() + 23)
     jobs = []
